@@ -57,7 +57,7 @@ def handle (j : Json) : Except String Json := do
            | none => []))
       | none => Json.null
     return Json.mkObj [("model", exceptToJson cellsToJson (disaggregateExperience cells res weights fields)),
-                       ("spec", spec)]
+                       ("wf", Json.bool (Spec.C18.disaggWF res cells)), ("spec", spec)]
   | "policyYear" =>
     let cells ← cellsFromJson (← j.getObjVal? "cells")
     let len ← (← j.getObjVal? "policyLen").getNat?
